@@ -297,3 +297,8 @@ package allocator
 //@ func (a *EpochBitmapAllocator) GetCurrentEpoch
 //@   trusted frame only: reads the epoch counter
 //@   modifies nothing
+
+// ---- pool_allocator.go as seen by the DHCPv6 server (C02): frame only ----
+//@ func (p *PoolAllocator) Release
+//@   trusted external-allocator mode: touches the allocator's own tables and its store only
+//@   modifies nothing
